@@ -1321,6 +1321,7 @@ impl<D: AsyncDB, M: MakeConnection<Conn = D>> Runner<D, M> {
     {
         let files = glob::glob(glob).expect("failed to read glob pattern");
         let mut tasks = vec![];
+        let mut db_names = vec![];
 
         for (idx, file) in files.enumerate() {
             // for every slt file, we create a database against table conflict
@@ -1339,6 +1340,7 @@ impl<D: AsyncDB, M: MakeConnection<Conn = D>> Runner<D, M> {
                 .run_default(&format!("CREATE DATABASE {db_name};"))
                 .await
                 .expect("create db failed");
+            db_names.push(db_name.clone());
             let target = hosts[idx % hosts.len()].clone();
 
             let mut locals = RunnerLocals::default();
@@ -1362,7 +1364,9 @@ impl<D: AsyncDB, M: MakeConnection<Conn = D>> Runner<D, M> {
 
             tasks.push(async move {
                 let filename = file.to_string_lossy().to_string();
-                tester.run_file_async(filename).await
+                let result = tester.run_file_async(filename).await;
+                tester.shutdown_async().await;
+                result
             })
         }
 
@@ -1371,6 +1375,15 @@ impl<D: AsyncDB, M: MakeConnection<Conn = D>> Runner<D, M> {
             .filter_map(|result| async { result.err() })
             .collect()
             .await;
+        for db_name in db_names {
+            if let Err(error) = self
+                .conn
+                .run_default(&format!("DROP DATABASE {db_name};"))
+                .await
+            {
+                tracing::error!(db_name, ?error, "failed to drop database");
+            }
+        }
         if errors.is_empty() {
             Ok(())
         } else {
